@@ -42,4 +42,20 @@ def mrunHistory (sc : Script) (cfg : NCfg) (qmax fuel : Nat) : List (Nat × Nat)
     | some ms' => mrunHistory sc cfg qmax fuel h ms'
     | none => none
 
+/-! ### membership operations between events -/
+
+/-- `HierarchicalMachine.add_model(models, initial)` between events: `Machine.add_model` skips a model that is registered,
+and the nested override writes the resolved initial configuration only into the models it has just registered
+(`new_models`: named, not in `known`, first mention).  `fresh` is the engine state a registration starts from
+(`NSt.init` of the machine, or of the machine with the `initial=` given). -/
+def addModels (fresh : NSt) : List Nat → MSt → MSt
+  | [], ms => ms
+  | m :: r, ms =>
+    match alookup m ms with
+    | some _ => addModels fresh r ms
+    | none => addModels fresh r (ms ++ [(m, fresh)])
+
+/-- `Machine.remove_model(models)`: the models leave the list, nothing is written to anybody -/
+def removeModels (ids : List Nat) (ms : MSt) : MSt := ms.filter fun e => !ids.contains e.1
+
 end TM
